@@ -36,6 +36,28 @@ func (p PointSpec) real() drv.PointSpec {
 func (p PointSpec) model() *ref.Point {
 	f := map[string]ref.Value{}
 	for k, v := range p.Fields {
+		switch x := v.(type) { // small integer / float types are normalised to 64 bits when the point is built
+		case int:
+			v = int64(x)
+		case int8:
+			v = int64(x)
+		case int16:
+			v = int64(x)
+		case int32:
+			v = int64(x)
+		case uint:
+			v = int64(x)
+		case uint8:
+			v = int64(x)
+		case uint16:
+			v = int64(x)
+		case uint32:
+			v = int64(x)
+		case uint64:
+			v = int64(x)
+		case float32:
+			v = float64(x)
+		}
 		f[k] = v
 	}
 	return ref.NewPoint(p.Meas, p.Tags, f, p.Time)
